@@ -33,6 +33,7 @@
 #include <memory>
 #include <mutex>
 #include <optional>
+#include <sstream>
 #include <string>
 #include <thread>
 #include <unordered_map>
@@ -205,8 +206,8 @@ u64 decode(const std::byte* p, std::size_t n) noexcept {
 }
 
 // ----------------------------------------------------------------------- history
-enum : int { K_INSERT = vl::INSERT, K_REMOVE = vl::REMOVE, K_GET = vl::GET, K_EMPTY = 3, K_SCAN = 4, K_CLEAR = 5, K_STATS = 6 };
-const char* const kNames[] = {"insert", "remove", "get", "empty", "scan", "clear", "statistics"};
+enum : int { K_INSERT = vl::INSERT, K_REMOVE = vl::REMOVE, K_GET = vl::GET, K_EMPTY = 3, K_SCAN = 4, K_CLEAR = 5, K_STATS = 6, K_DUMP = 7 };
+const char* const kNames[] = {"insert", "remove", "get", "empty", "scan", "clear", "statistics", "dump"};
 
 struct planned { int kind; int key; };
 
@@ -398,6 +399,15 @@ void run_worker(round_ctx& rc, worker& w) {
         r.ok = true;
         break;
       }
+      case K_DUMP: {  // walks the whole tree under the index lock like every other operation (hold-window rule, TSan)
+        std::ostringstream os;
+        r.call = stamp(); lib_enter();
+        rc.db.dump(os);
+        lib_leave(); r.ret = stamp();
+        r.ok = true;
+        check_held(w, "dump", 0, true);
+        break;
+      }
       case K_CLEAR:
         r.call = stamp(); lib_enter();
         rc.db.clear();
@@ -495,7 +505,7 @@ void make_plans(round_ctx& rc, vh::rng& r) {
     for (u64 i = 0; i < n; ++i) {
       const u64 x = r.below(100);
       planned p{};
-      p.kind = x < 28 ? K_INSERT : x < 52 ? K_REMOVE : x < 83 ? K_GET : x < 91 ? K_EMPTY : x < 95 ? K_SCAN : x < 98 ? K_CLEAR : K_STATS;
+      p.kind = x < 28 ? K_INSERT : x < 52 ? K_REMOVE : x < 83 ? K_GET : x < 91 ? K_EMPTY : x < 95 ? K_SCAN : x < 97 ? K_CLEAR : x < 99 ? K_STATS : K_DUMP;
       p.key = p.kind >= K_EMPTY ? -1 : r.chance(hot_p) ? hot : static_cast<int>(r.below(rc.nactive));
       w->plan.push_back(p);
     }
@@ -673,7 +683,7 @@ void evaluate(round_ctx& rc, u64 c) {
   rep().count("rounds");
   rep().count("ops", nworker_ops);
   rep().count("snapshot_ops", all.size() - nworker_ops);
-  u64 cnt[11] = {};
+  u64 cnt[12] = {};
   for (std::size_t i = 0; i < nworker_ops; ++i) {
     const rec& o = *all[i];
     switch (o.kind) {
@@ -683,11 +693,12 @@ void evaluate(round_ctx& rc, u64 c) {
       case K_EMPTY: ++cnt[6]; if (o.ok) ++cnt[7]; break;
       case K_CLEAR: ++cnt[9]; break;
       case K_STATS: ++cnt[10]; break;
+      case K_DUMP: ++cnt[11]; break;
       default: ++cnt[8];
     }
   }
-  static const char* const cn[11] = {"inserts_ok", "inserts_dup", "removes_ok", "removes_absent", "gets_hit", "gets_miss", "empty_calls", "empty_true", "scans", "clears", "statistics_calls"};
-  for (int i = 0; i < 11; ++i) rep().count(cn[i], cnt[i]);
+  static const char* const cn[12] = {"inserts_ok", "inserts_dup", "removes_ok", "removes_absent", "gets_hit", "gets_miss", "empty_calls", "empty_true", "scans", "clears", "statistics_calls", "dumps"};
+  for (int i = 0; i < 12; ++i) rep().count(cn[i], cnt[i]);
   rep().count("overlapping_pairs", overlap_pairs);
   rep().count("blocked_behind_hold", blocked);
   rep().count("called_inside_hold", called_inside);
